@@ -250,7 +250,11 @@ func genC12(t *rapid.T) C12Case {
 		}
 		c.S = b.String()
 		if rapid.IntRange(0, 3).Draw(t, "fixed") == 0 {
-			c.S = rapid.SampledFrom([]string{"Inf", "+Inf", "-inf", "inf", "INF", "+", "-", ".", "e5", "0x", "0b", "0o", "0x.", "0b2", "0o8", "1e+", "1e-", "1_", "_1", "1__2", "1._2", "1_.2", "0_1", "0x_1", "0x1_", "1e1_0", "1e_1", "1p5", "1.5p-3", "0x1e5", "0x1p5", "0b1e5", "0o7p1", "00", "01", "08", "0.e1", ".e1", "1.e1", "Infx", "+-1", "1 ", " 1", "1e2147483647", "1e2147483648", "1e-2147483648", "1e-2147483649", "0.0001e2147483647", "12345e2147483643", "1e99999999999999999999", "0e99999999999999999999", ""}).Draw(t, "fx")
+			c.S = rapid.SampledFrom([]string{"Inf", "+Inf", "-inf", "inf", "INF", "+", "-", ".", "e5", "0x", "0b", "0o", "0x.", "0b2", "0o8", "1e+", "1e-", "1_", "_1", "1__2", "1._2", "1_.2", "0_1", "0x_1", "0x1_", "1e1_0", "1e_1", "1p5", "1.5p-3", "0x1e5", "0x1p5", "0b1e5", "0o7p1", "00", "01", "08", "0.e1", ".e1", "1.e1", "Infx", "+-1", "1 ", " 1", "1e2147483647", "1e2147483648", "1e-2147483648", "1e-2147483649", "0.0001e2147483647", "12345e2147483643", "1e99999999999999999999", "0e99999999999999999999", "",
+				"--Inf", "+-inf", "++Inf", "-+Inf", "+ Inf", "Inf+", "InfInf", "Infinity", "iNF", "INf", "-", "--1", "++1", "+-0", "- 1", "1-", "1+", "1e+-1", "1e--1", "1e++1", "1p+-1", "0x-1", "-0x1", "+0b1", "0x+1p1"}).Draw(t, "fx")
+			if rapid.IntRange(0, 3).Draw(t, "fxmut") == 0 {
+				c.S = mutate(t, c.S)
+			}
 		}
 		c.Base = rapid.SampledFrom([]int{0, 0, 10, 16, 2, 8}).Draw(t, "base")
 	}
